@@ -175,7 +175,7 @@ def replay(desc, col):
 REGISTER = True
 MUTANTS = []
 MANIFEST = {
-    "level_text": "For generated tiny single-Einsum specs with metric sets ENERGY|LATENCY(|RESOURCE_USAGE) the documented mapspace is enumerated completely and evaluated; every valid member must be weakly dominated by a returned row, no returned row may strictly dominate another, and no two returned rows may coincide. Complete inside each enumerated universe; the spec family is sampled. Not a proof.",
+    "level_text": "For generated tiny single-Einsum specs with metric sets ENERGY|LATENCY(|RESOURCE_USAGE) the documented mapspace is enumerated completely and evaluated; every valid member must be weakly dominated by a returned row, no returned row may strictly dominate another, and no two returned rows may coincide. Complete inside each enumerated universe; the spec family is sampled. A front-only family checks the last two clauses on larger specs with energies scaled up to 2^20 (float32 sort-key ties). Not a proof.",
     "level_note": "Trusted: universe rules and evaluator as in C01. Single-Einsum specs only; capacities never an exact fit (open finding C08). Dominance uses a 1e-5 relative margin because the mapper reports float32 values.",
     "technique": "property-based testing against an exhaustive brute-force reference (mapspace enumeration + O(n^2) dominance)",
 }
